@@ -6,7 +6,7 @@ from .. import hir as H
 from ..containers import state
 from ..facts import facts
 from ..intconv import INT_TYPES, int_range
-from ..ranges import Env, Ranger, Walker, mutated_names, ty_range
+from ..ranges import Env, Ranger, Walker, grown_names, mutated_names, ty_range
 from ..world import gpath, split_gpath
 
 EXPLANATION = (
@@ -116,8 +116,22 @@ class ParamRanges:
         self.G = G
         self.memo = {}
         self.active = set()
+        self._callers = {}
+        self._checkers = {}
 
     def callers(self, gp):
+        if gp in self._callers:
+            return self._callers[gp]
+        self._callers[gp] = out = self._callers_uncached(gp)
+        return out
+
+    def checker(self, c, rec):
+        k = (c, rec["path"])
+        if k not in self._checkers:
+            self._checkers[k] = SiteChecker(self.G, c, rec, None, None, self)
+        return self._checkers[k]
+
+    def _callers_uncached(self, gp):
         crate, lp = split_gpath(gp)
         out = []
         needles = [lp]
@@ -144,7 +158,7 @@ class ParamRanges:
             res = None
             n_sites = 0
             for c, rec, needle in self.callers(gp):
-                chk = SiteChecker(self.G, c, rec, None, None, self)
+                chk = self.checker(c, rec)
                 for span, lst in chk.by_span.items():
                     for (n, env, loops, seq) in lst:
                         if n[0] == "call" and H.call_path(n) == needle:
@@ -183,6 +197,7 @@ class SiteChecker:
             return self.params.get(self.gp, names.index(name), name)
 
         self.ranger = Ranger(mutated_names(self.hir), consts, param_range)
+        self.ranger.grown = grown_names(self.hir)
         self.by_span = {}
         self.loops = []  # (loop node, env)
         w = Walker(self.ranger, self.on_node)
